@@ -256,9 +256,23 @@ Proof.
   destruct (Hmid ltac:(lia)) as (H3 & H4 & _). nia.
 Qed.
 
+(* O = rows_upto I ++ the first J-a pairs of row I (the run R[a..J] has key L[I], everything before a is smaller) *)
+Lemma Abs_prefix_LU : forall I J sb O, AbsLU I J sb O -> 0 <= I <= len L -> 0 <= J <= len R ->
+  exists rest, join_spec emit inv L R = O ++ rest.
+Proof.
+  intros I J sb O (_ & _ & _ & a0 & Ha0 & HO & Hfront & Hmid) HI HJ. subst O.
+  destruct (Z.eq_dec a0 J) as [e|ne].
+  - subst a0. rewrite lu_pairs_nil, app_nil_r. apply rows_upto_prefix. exact HI.
+  - destruct (Hmid ltac:(lia)) as (HIlt & HJlt & Hrun).
+    destruct (row_run_prefix emit inv R I (nthZ L I) a0 J ltac:(lia) ltac:(lia)) as (suf & Hrow).
+    + intros j Hj. specialize (Hfront j I ltac:(lia) ltac:(lia)). lia.
+    + intros j Hj. apply Hrun. lia.
+    + apply (rows_row_prefix emit inv L R I _ suf); [lia|exact Hrow].
+Qed.
+
 Definition KindOK_LU : KindOK KLU emit L R inv cs.
 Proof.
-  refine (mkKindOK KLU emit L R inv cs AbsLU LocLU _ _ Abs_len_LU kstep_ok_LU Abs_final_LU).
+  refine (mkKindOK KLU emit L R inv cs AbsLU LocLU _ _ Abs_len_LU kstep_ok_LU Abs_final_LU Abs_prefix_LU).
   - intros s Hr Hi Hj. unfold LocLU. lia.
   - unfold AbsLU. simp_st. pose proof (len_nonneg L). pose proof (len_nonneg R).
     splits; try lia; try reflexivity.
